@@ -390,36 +390,55 @@ Qed.
 Lemma inv_crash s : Inv s -> Inv (crash s).
 Proof. intros [A B C D E G]. constructor; simpl; auto. Qed.
 
+Lemma inv_drop_wait s n : Inv s -> Inv (set_waits (aremove n (waits s)) s).
+Proof.
+  intros [A B C D E G]. constructor; simpl; auto.
+  intros n0 b Hin. apply A. eapply aremove_in; eauto.
+Qed.
+
+Lemma inv_recover_rest s fin val n c :
+  c_hash c = ver n -> Inv s -> Inv (fst (fst (recover_rest s fin val n c))).
+Proof.
+  intros Hc I. unfold recover_rest.
+  assert (Happ : forall s0 st, Inv s0 -> Inv (set_heap (heap s0 ++ [comp_to_obj n c st]) s0)).
+  { intros s0 st [A B C D E G]. constructor; simpl; auto. apply Forall_app; split; auto. }
+  destruct (ahas n (fulls s)); [apply Happ; exact I|].
+  destruct (alookup n (parts s)) as [sf|].
+  - destruct (complete (c_parts c) (c_size c)); [|exact I].
+    apply (Happ (set_fulls (aset n (sf_data sf) (fulls s)) (set_parts (aremove n (parts s)) s)) ST_RECEIVED).
+    eapply inv_same5; [|exact I]. repeat split.
+  - set (tgt := match c_renamed c with [] => n | r => r end).
+    assert (I1 : Inv (match alookup tgt (flcks s) with
+                      | Some body => set_flcks (aremove tgt (flcks s)) (set_finals (aset tgt body (finals s)) s)
+                      | None => s end)).
+    { destruct (alookup tgt (flcks s)) as [body|] eqn:L; [|exact I].
+      destruct I as [A B C D E G]. constructor; simpl; auto.
+      - intros t b Hin. apply aset_in in Hin as [Hin|Hin]; [|auto].
+        inversion Hin; subst t b. apply G. apply alookup_in; auto.
+      - intros t b Hin. apply G. eapply aremove_in; eauto. }
+    destruct I1 as [A B C D E G]. constructor; simpl; auto.
+    intros n0 c0 Hin. apply E. eapply aremove_in; eauto.
+Qed.
+
+Lemma inv_recover_one s fin val n c :
+  c_hash c = ver n -> Inv s -> Inv (fst (fst (recover_one H (s, fin, val) (n, c)))).
+Proof.
+  intros Hc I. unfold recover_one.
+  destruct (alookup n (waits s)) as [b|]; [|apply inv_recover_rest; auto].
+  destruct (name_eqb (H b) (c_hash c)); [|apply inv_recover_rest; auto; apply inv_drop_wait; auto].
+  destruct I as [A B C D E G]. constructor; simpl; auto. apply Forall_app; split; auto.
+Qed.
+
 Lemma inv_recover_fold : forall (l : list (name * comp)) s fin val,
   (forall n c, In (n, c) l -> c_hash c = ver n) -> Inv s ->
-  Inv (fst (fst (fold_left recover_one l (s, fin, val)))).
+  Inv (fst (fst (fold_left (recover_one H) l (s, fin, val)))).
 Proof.
   induction l as [|[n c] r IH]; intros s fin val Hl I; [simpl; auto|].
   assert (Hc : c_hash c = ver n) by (apply Hl; left; auto).
   assert (Hr : forall n0 c0, In (n0, c0) r -> c_hash c0 = ver n0) by (intros; apply Hl; right; auto).
-  assert (Hone : Inv (fst (fst (recover_one (s, fin, val) (n, c))))).
-  { unfold recover_one.
-    assert (Happ : forall s0 st, Inv s0 -> Inv (set_heap (heap s0 ++ [comp_to_obj n c st]) s0)).
-    { intros s0 st [A B C D E G]. constructor; simpl; auto. apply Forall_app; split; auto. }
-    destruct (ahas n (waits s)); [apply Happ; exact I|].
-    destruct (ahas n (fulls s)); [apply Happ; exact I|].
-    destruct (alookup n (parts s)) as [sf|].
-    - destruct (complete (c_parts c) (c_size c)); [|exact I].
-      apply (Happ (set_fulls (aset n (sf_data sf) (fulls s)) (set_parts (aremove n (parts s)) s)) ST_RECEIVED).
-      eapply inv_same5; [|exact I]. repeat split.
-    - set (tgt := match c_renamed c with [] => n | r => r end).
-      assert (I1 : Inv (match alookup tgt (flcks s) with
-                        | Some body => set_flcks (aremove tgt (flcks s)) (set_finals (aset tgt body (finals s)) s)
-                        | None => s end)).
-      { destruct (alookup tgt (flcks s)) as [body|] eqn:L; [|exact I].
-        destruct I as [A B C D E G]. constructor; simpl; auto.
-        - intros t b Hin. apply aset_in in Hin as [Hin|Hin]; [|auto].
-          inversion Hin; subst t b. apply G. apply alookup_in; auto.
-        - intros t b Hin. apply G. eapply aremove_in; eauto. }
-      destruct I1 as [A B C D E G]. constructor; simpl; auto.
-      intros n0 c0 Hin. apply E. eapply aremove_in; eauto. }
+  pose proof (inv_recover_one s fin val n c Hc I) as Hone.
   cbn [fold_left].
-  destruct (recover_one (s, fin, val) (n, c)) as [[s' fin'] val']. simpl in Hone.
+  destruct (recover_one H (s, fin, val) (n, c)) as [[s' fin'] val']. simpl in Hone.
   apply IH; assumption.
 Qed.
 
@@ -427,7 +446,7 @@ Lemma inv_recover s now : Inv s -> Inv (recover H s now).
 Proof.
   intros I. unfold recover.
   pose proof (inv_recover_fold (cmps s) s [] [] (inv_cmp _ I) I) as I1.
-  destruct (fold_left recover_one (cmps s) (s, [], [])) as [[s1 fin] val]. simpl in I1.
+  destruct (fold_left (recover_one H) (cmps s) (s, [], [])) as [[s1 fin] val]. simpl in I1.
   assert (I2 := inv_build_cache s1 now (now - 86400) I1).
   set (s2 := build_cache s1 now (now - 86400)) in *. clearbody s2.
   assert (I3 : Inv (fold_left (fun acc o => let a := to_cache acc o ST_VALIDATED in set_fq (fq a ++ [o]) a) fin s2)).
@@ -783,20 +802,20 @@ Qed.
 Section Recovery.
 Variable H : list Z -> name.
 
-(* Scanning one companion during Recover never loses data: the receive log and
-   every validated (.wait) body are untouched, every complete (.full) body
-   stays, and a delivered file stays unless a lock-named leftover of the same
-   target is moved over it (the interrupted-move repair). *)
-Theorem recover_one_keeps_data : forall s fin val kv s' fin' val',
-  recover_one (s, fin, val) kv = (s', fin', val') ->
+(* Scanning one companion during Recover never loses data: the receive log is
+   untouched; every validated (.wait) body stays, except the one body of this
+   name that does not hash to its companion's hash (it was validated as another
+   version; fix "Recover checks the held file against its companion"); every
+   complete (.full) body stays, and a delivered file stays unless a lock-named
+   leftover of the same target is moved over it (the interrupted-move repair). *)
+Lemma recover_rest_keeps_data : forall s fin val n c s' fin' val',
+  recover_rest s fin val n c = (s', fin', val') ->
   rlog s' = rlog s /\ waits s' = waits s /\
-  (forall n b, alookup n (fulls s) = Some b -> alookup n (fulls s') = Some b) /\
+  (forall n0 b, alookup n0 (fulls s) = Some b -> alookup n0 (fulls s') = Some b) /\
   (forall t b, alookup t (finals s) = Some b ->
                alookup t (finals s') = Some b \/ ahas t (flcks s) = true).
 Proof.
-  intros s fin val [n c] s' fin' val' R. unfold recover_one in R.
-  destruct (ahas n (waits s)).
-  { inversion R; subst; simpl. repeat split; auto. }
+  intros s fin val n c s' fin' val' R. unfold recover_rest in R.
   destruct (ahas n (fulls s)) eqn:Hf.
   { inversion R; subst; simpl. repeat split; auto. }
   destruct (alookup n (parts s)) as [sf0|] eqn:L.
@@ -810,15 +829,56 @@ Proof.
     + left. rewrite alookup_aset_other; auto. apply name_eqb_false_neq in E. auto.
 Qed.
 
+Theorem recover_one_keeps_data : forall s fin val kv s' fin' val',
+  recover_one H (s, fin, val) kv = (s', fin', val') ->
+  rlog s' = rlog s /\
+  (waits s' = waits s \/
+   exists b, alookup (fst kv) (waits s) = Some b /\ H b <> c_hash (snd kv) /\
+             waits s' = aremove (fst kv) (waits s)) /\
+  (forall n b, alookup n (fulls s) = Some b -> alookup n (fulls s') = Some b) /\
+  (forall t b, alookup t (finals s) = Some b ->
+               alookup t (finals s') = Some b \/ ahas t (flcks s) = true).
+Proof.
+  intros s fin val [n c] s' fin' val' R. unfold recover_one in R. simpl fst. simpl snd.
+  destruct (alookup n (waits s)) as [b|] eqn:W.
+  - destruct (name_eqb (H b) (c_hash c)) eqn:E.
+    + inversion R; subst; simpl. repeat split; auto.
+    + apply recover_rest_keeps_data in R. simpl in R. destruct R as (R1 & R2 & R3 & R4).
+      split; [exact R1|]. split; [|split; [exact R3 | exact R4]].
+      right. exists b. split; [reflexivity|]. split; [|exact R2].
+      apply name_eqb_false_neq in E. exact E.
+  - apply recover_rest_keeps_data in R. destruct R as (R1 & R2 & R3 & R4).
+    split; [exact R1|]. split; [left; exact R2|]. split; [exact R3 | exact R4].
+Qed.
+
+(* a held body is handed to finalisation under the companion's identity only if it
+   hashes to the companion's hash (C01 across a restart, several versions of a name) *)
+Theorem recover_one_finalizes_checked : forall s fin val n c s' fin' val',
+  recover_one H (s, fin, val) (n, c) = (s', fin', val') -> fin' <> fin ->
+  exists b, alookup n (waits s) = Some b /\ H b = c_hash c /\ waits s' = waits s.
+Proof.
+  intros s fin val n c s' fin' val' R Hne. unfold recover_one in R.
+  assert (Rest : forall s0 s1 f1 v1, recover_rest s0 fin val n c = (s1, f1, v1) -> f1 = fin).
+  { intros s0 s1 f1 v1 R0. unfold recover_rest in R0.
+    destruct (ahas n (fulls s0)); [inversion R0; reflexivity|].
+    destruct (alookup n (parts s0)); [destruct (complete (c_parts c) (c_size c)); inversion R0; reflexivity|].
+    inversion R0; reflexivity. }
+  destruct (alookup n (waits s)) as [b|] eqn:W.
+  - destruct (name_eqb (H b) (c_hash c)) eqn:E.
+    + inversion R; subst. exists b. split; [reflexivity|]. split; [apply name_eqb_eq; exact E | reflexivity].
+    + exfalso. apply Hne. eapply Rest; eauto.
+  - exfalso. apply Hne. eapply Rest; eauto.
+Qed.
+
 (* ... and a validated, logged file that a crash inside fileutil.Move left
    under its lock name is put under its proper name (fix c24e975) *)
 Theorem recover_one_finishes_move : forall s fin val n c body,
-  ahas n (waits s) = false -> ahas n (fulls s) = false -> alookup n (parts s) = None ->
+  alookup n (waits s) = None -> ahas n (fulls s) = false -> alookup n (parts s) = None ->
   alookup (match c_renamed c with [] => n | r => r end) (flcks s) = Some body ->
   alookup (match c_renamed c with [] => n | r => r end)
-          (finals (fst (fst (recover_one (s, fin, val) (n, c))))) = Some body.
+          (finals (fst (fst (recover_one H (s, fin, val) (n, c))))) = Some body.
 Proof.
-  intros s fin val n c body W F P L. unfold recover_one. rewrite W, F, P, L. simpl.
+  intros s fin val n c body W F P L. unfold recover_one, recover_rest. rewrite W, F, P, L. simpl.
   apply alookup_aset_same.
 Qed.
 
